@@ -183,11 +183,11 @@ pub fn call_opt(c: usize, shared: Option<&RangeParameters<P>>) -> String {
             verify_digest(&[a.stmt, b.stmt, c3.stmt], &[a.proof, b.proof, c3.proof], VerifyAction::VerifyOnly)
         },
         18 => {
-            // a batch that is consistent for its first 32 members and not after (the last 32 use another bit length): refused as a
+            // a batch that is consistent for its first 128 members and not after (the last 128 use another bit length): refused as a
             // whole, however busy the process is
             // (the members are prepared once per process: threads released together then spend their time inside verify_batch together)
             static B18: std::sync::OnceLock<Vec<Made>> = std::sync::OnceLock::new();
-            let a = B18.get_or_init(|| (0..32u64).map(|i| make(params(2, 1, 1), 1, 1, false, 600 + i)).chain((0..32u64).map(|i| make(params(4, 1, 1), 1, 1, false, 700 + i))).collect());
+            let a = B18.get_or_init(|| (0..128u64).map(|i| make(params(2, 1, 1), 1, 1, false, 600 + i)).chain((0..128u64).map(|i| make(params(4, 1, 1), 1, 1, false, 800 + i))).collect());
             let stmts: Vec<RangeStatement<P>> = a.iter().map(|m| m.stmt.clone()).collect();
             let proofs: Vec<RangeProof<P>> = a.iter().map(|m| RangeProof::<P>::from_bytes(&m.proof.to_bytes()).unwrap()).collect();
             verify_digest(&stmts, &proofs, VerifyAction::VerifyOnly)
